@@ -74,6 +74,13 @@ def generate(rng, tier):
     # extend()/remove() called from a doer's enter context while the scheduler is still entering its doers
     out += sc.gen_enter_effects(rng, 60 * n)
     sc.add_falsy(rng, out)
+    # in a fifth of the programs the bound-method doers are doize'd methods, named anew (equal, not identical) in
+    # every extend()/remove() argument
+    for p in out:
+        if rng.random() < 0.2:
+            for d in p["defs"].values():
+                if d["kind"] == "bound":
+                    d["fresh_method"] = True
     return out
 
 
